@@ -600,3 +600,49 @@ def eval_bool(t, atoms):
     if t[0] == 'const':
         return bool(t[1])
     return None
+
+
+def field_of(facts, cls, type_has, what=None):
+    """Name of the one data member of cls whose declared type contains `type_has` (members are found by their role - their
+    type in the record layout -, not by their spelling, so renaming a private member changes nothing)."""
+    rec = facts.records.get(cls) or {}
+    hits = [x['name'] for x in rec.get('fields', []) if type_has in (x.get('type') or '')]
+    if len(hits) != 1:
+        raise AnalysisBroken('record %s: expected exactly one member of type ~%s (%s), found %s' % (
+            cls, type_has, what or 'role', hits))
+    return hits[0]
+
+
+def counted_table_loops(f, table):
+    """{header block id: induction variable id} of loops `for (i = 0; i < TABLE.size(); ++i)` over the whole global
+    container `table` (qualified name) - the counted equivalent of a range-for over it."""
+    out = {}
+    for b_, blk_ in f.blocks.items():
+        t_ = blk_.term
+        if not t_ or t_.get('k') not in ('ForStmt', 'WhileStmt') or 'cond' not in t_ or len(blk_.succ) != 2:
+            continue
+        c_ = f.strip(f.node(t_['cond']), casts=True)
+        if c_ is None or c_['k'] != 'BinaryOperator' or c_.get('op') not in ('<', '!='):
+            continue
+        l_, r_ = f.strip(f.ch(c_)[0], casts=True), f.strip(f.ch(c_)[1], casts=True)
+        if l_ is None or l_['k'] != 'DeclRefExpr' or r_ is None:
+            continue
+        whole = (r_['k'] in CALL_KINDS and r_.get('cn') == 'size' and global_ref(f, call_recv(f, r_)) == table)
+        ini_ = var_decl_init(f, l_.get('id'))
+        from_zero = ini_ is not None and cv_through(f, ini_) == 0
+        stepped = any(x['k'] == 'UnaryOperator' and x.get('op') == '++' and root_var(f, f.ch(x)[0]) == l_.get('id')
+                      for x in f.all_nodes())
+        if whole and from_zero and stepped:
+            out[b_] = l_.get('id')
+    return out
+
+
+def indexes_table(f, n, table, ivars):
+    """does expression n denote TABLE[i] / TABLE.at(i) for an induction variable i of a whole-table loop?"""
+    for x in f.walk(n):
+        if x['k'] in CALL_KINDS and x.get('cn') in ('operator[]', 'at'):
+            recv = call_recv(f, x)
+            args = call_args(f, x)
+            if recv is not None and global_ref(f, recv) == table and args and root_var(f, args[0]) in ivars:
+                return True
+    return False
